@@ -579,34 +579,106 @@ func registerIntrinsics(ex *Executor) {
 	}
 	// time.After(d): a timer channel that has already fired (value buffered) or has not fired yet — the
 	// environment's choice. A timer that never fires at all is excluded by the harness (d > 0 always elapses).
-	I["time.After"] = func(ex *Executor, st *State, cc *CallCtx, args []Val) (Val, ctl) {
+	// armed timers: the channels of timers that were started and have not fired yet (time.After, time.NewTimer, Timer.Reset)
+	armed := func(st *State) []ChanV {
+		l, _ := st.Ghost["timer.chans"].([]ChanV)
+		return l
+	}
+	arm := func(st *State, c ChanV) {
+		for _, x := range armed(st) {
+			if x.Obj == c.Obj {
+				return
+			}
+		}
+		st.Ghost["timer.chans"] = append(append([]ChanV(nil), armed(st)...), c)
+	}
+	disarm := func(st *State, c ChanV) bool {
+		var out []ChanV
+		was := false
+		for _, x := range armed(st) {
+			if x.Obj == c.Obj {
+				was = true
+				continue
+			}
+			out = append(out, x)
+		}
+		st.Ghost["timer.chans"] = out
+		return was
+	}
+	// start: the timer has already fired (value buffered) or has not fired yet — the environment's choice
+	start := func(ex *Executor, st *State, c ChanV) {
 		fired := smt.Var(fmt.Sprintf("nd%d_%s", len(st.ND), "timerfired"), smt.Bool)
 		f := ex.branch(st, fired)
 		st.ND = append(st.ND[:len(st.ND):len(st.ND)], NDRec{Kind: "ext-bool", Tag: "time.After fired", T: fired})
-		o := ex.newObj(cc.Fn.Signature.Results().At(0).Type(), "timer")
-		d := &ChanData{Cap: 1}
 		if f {
-			d.Buf = []Val{ex.timeNow(st)}
+			ex.setChan(st, c, &ChanData{Cap: 1, Buf: []Val{ex.timeNow(st)}})
 			st.note("timer fired")
 		} else {
+			ex.setChan(st, c, &ChanData{Cap: 1})
+			arm(st, c)
 			st.note("timer pending")
 		}
-		st.Heap[o] = d
-		st.Ghost["timer.chan"] = ChanV{o}
+	}
+	// time.After(d): a timer channel that has already fired or has not fired yet. A timer that never fires at all is
+	// excluded by the harness (d > 0 always elapses: verifFireTimer).
+	I["time.After"] = func(ex *Executor, st *State, cc *CallCtx, args []Val) (Val, ctl) {
+		o := ex.newObj(cc.Fn.Signature.Results().At(0).Type(), "timer")
+		st.Heap[o] = &ChanData{Cap: 1}
+		start(ex, st, ChanV{o})
 		return ChanV{o}, cNext
 	}
-	// verifFireTimers(): every pending timer fires now (used by the harness when nothing else can make progress)
-	I["@verifFireTimer"] = func(ex *Executor, st *State, cc *CallCtx, args []Val) (Val, ctl) {
-		c, ok := st.Ghost["timer.chan"].(ChanV)
-		if !ok {
-			return nil, cNext
-		}
-		d := ex.chanData(st, c)
-		if len(d.Buf) == 0 {
-			if !ex.trySend(st, c, ex.timeNow(st)) {
-				ex.setChan(st, c, &ChanData{Cap: 1, Buf: []Val{smt.IntC(1)}})
+	// time.NewTimer / (*Timer).Reset / (*Timer).Stop (Go 1.23 semantics: after Stop or Reset no stale value is left in C)
+	timerChan := func(ex *Executor, st *State, p Ptr) ChanV {
+		tt := ex.lookupType("time", "Timer").Underlying().(*types.Struct)
+		sv := ex.load(st, p).(*StructV)
+		for i := 0; i < tt.NumFields(); i++ {
+			if tt.Field(i).Name() == "C" {
+				return sv.Fields[i].(ChanV)
 			}
 		}
+		ex.abort("time.Timer without C")
+		return ChanV{}
+	}
+	I["time.NewTimer"] = func(ex *Executor, st *State, cc *CallCtx, args []Val) (Val, ctl) {
+		tn := ex.lookupType("time", "Timer")
+		tt := tn.Underlying().(*types.Struct)
+		sv := ex.zero(tn).(*StructV)
+		var c ChanV
+		for i := 0; i < tt.NumFields(); i++ {
+			if tt.Field(i).Name() == "C" {
+				o := ex.newObj(tt.Field(i).Type(), "timer")
+				st.Heap[o] = &ChanData{Cap: 1}
+				c = ChanV{o}
+				sv.Fields[i] = c
+			}
+		}
+		p := ex.alloc(st, tn, "time.Timer", sv)
+		start(ex, st, c)
+		return p, cNext
+	}
+	I["(*time.Timer).Stop"] = func(ex *Executor, st *State, cc *CallCtx, args []Val) (Val, ctl) {
+		c := timerChan(ex, st, args[0].(Ptr))
+		was := disarm(st, c)
+		ex.setChan(st, c, &ChanData{Cap: 1})
+		return smt.BoolC(was), cNext
+	}
+	I["(*time.Timer).Reset"] = func(ex *Executor, st *State, cc *CallCtx, args []Val) (Val, ctl) {
+		c := timerChan(ex, st, args[0].(Ptr))
+		was := disarm(st, c)
+		start(ex, st, c)
+		return smt.BoolC(was), cNext
+	}
+	// verifFireTimer(): every armed timer fires now (used by the harness when nothing else can make progress)
+	I["@verifFireTimer"] = func(ex *Executor, st *State, cc *CallCtx, args []Val) (Val, ctl) {
+		for _, c := range armed(st) {
+			d := ex.chanData(st, c)
+			if len(d.Buf) == 0 {
+				if !ex.trySend(st, c, ex.timeNow(st)) {
+					ex.setChan(st, c, &ChanData{Cap: 1, Buf: []Val{smt.IntC(1)}})
+				}
+			}
+		}
+		st.Ghost["timer.chans"] = []ChanV(nil)
 		return nil, cNext
 	}
 	I["time.Since"] = func(ex *Executor, st *State, cc *CallCtx, args []Val) (Val, ctl) {
